@@ -95,33 +95,49 @@ pub fn probe_structures() -> i32 {
                 // typed wrappers and closures (embedded + detached, create + verify, fallible + infallible)
                 let s1 = CoseSign1 { protected: p.clone(), payload: Some(payload.clone()), ..Default::default() };
                 check!("C03", s1.tbs_data(&aad), structure("Signature1", &[slot, &aad, &payload]), format!("CoseSign1::tbs_data {}", what));
+                slot!(s1.tbs_data(&aad), 1, slot, format!("CoseSign1::tbs_data {}", what));
                 let s1d = CoseSign1 { protected: p.clone(), ..Default::default() };
                 check!("C03", s1d.tbs_detached_data(&payload, &aad), structure("Signature1", &[slot, &aad, &payload]), format!("CoseSign1::tbs_detached_data {}", what));
+                slot!(s1d.tbs_detached_data(&payload, &aad), 1, slot, format!("CoseSign1::tbs_detached_data {}", what));
                 let mut seen: Vec<u8> = vec![];
                 let _ = s1.verify_signature(&aad, |_s, d| -> Result<(), ()> { seen = d.to_vec(); Ok(()) });
                 check!("C03,C06", seen.clone(), structure("Signature1", &[slot, &aad, &payload]), format!("CoseSign1::verify_signature {}", what));
-                let sig = CoseSignature { protected: prots[1].0.clone(), ..Default::default() };
+                slot!(seen.clone(), 1, slot, format!("CoseSign1::verify_signature {}", what));
+                for sp in 0..2usize {
+                let sig = CoseSignature { protected: prots[sp].0.clone(), ..Default::default() };
                 let sg = CoseSign { protected: p.clone(), payload: Some(payload.clone()), signatures: vec![sig.clone()], ..Default::default() };
-                check!("C03", sg.tbs_data(&aad, &sig), structure("Signature", &[slot, &prots[1].1, &aad, &payload]), format!("CoseSign::tbs_data {}", what));
+                check!("C03", sg.tbs_data(&aad, &sig), structure("Signature", &[slot, &prots[sp].1, &aad, &payload]), format!("CoseSign::tbs_data {}", what));
+                slot!(sg.tbs_data(&aad, &sig), 1, slot, format!("CoseSign::tbs_data {}", what));
+                slot!(sg.tbs_data(&aad, &sig), 2, &prots[sp].1, format!("CoseSign::tbs_data {}", what));
                 let sgd = CoseSign { protected: p.clone(), signatures: vec![sig.clone()], ..Default::default() };
-                check!("C03", sgd.tbs_detached_data(&payload, &aad, &sig), structure("Signature", &[slot, &prots[1].1, &aad, &payload]), format!("CoseSign::tbs_detached_data {}", what));
+                check!("C03", sgd.tbs_detached_data(&payload, &aad, &sig), structure("Signature", &[slot, &prots[sp].1, &aad, &payload]), format!("CoseSign::tbs_detached_data {}", what));
+                slot!(sgd.tbs_detached_data(&payload, &aad, &sig), 1, slot, format!("CoseSign::tbs_detached_data {}", what));
+                slot!(sgd.tbs_detached_data(&payload, &aad, &sig), 2, &prots[sp].1, format!("CoseSign::tbs_detached_data {}", what));
                 let _ = sgd.verify_detached_signature(0, &payload, &aad, |_s, d| -> Result<(), ()> { seen = d.to_vec(); Ok(()) });
-                check!("C03,C06", seen.clone(), structure("Signature", &[slot, &prots[1].1, &aad, &payload]), format!("CoseSign::verify_detached_signature {}", what));
+                check!("C03,C06", seen.clone(), structure("Signature", &[slot, &prots[sp].1, &aad, &payload]), format!("CoseSign::verify_detached_signature {}", what));
+                slot!(seen.clone(), 1, slot, format!("CoseSign::verify_detached_signature {}", what));
+                slot!(seen.clone(), 2, &prots[sp].1, format!("CoseSign::verify_detached_signature {}", what));
+                }
                 let m0 = CoseMac0 { protected: p.clone(), payload: Some(payload.clone()), ..Default::default() };
                 let _ = m0.verify_tag(&aad, |_t, d| -> Result<(), ()> { seen = d.to_vec(); Ok(()) });
                 check!("C04,C06", seen.clone(), structure("MAC0", &[slot, &aad, &payload]), format!("CoseMac0::verify_tag {}", what));
+                slot!(seen.clone(), 1, slot, format!("CoseMac0::verify_tag {}", what));
                 let m = CoseMac { protected: p.clone(), payload: Some(payload.clone()), ..Default::default() };
                 let _ = m.verify_tag(&aad, |_t, d| -> Result<(), ()> { seen = d.to_vec(); Ok(()) });
                 check!("C04,C06", seen.clone(), structure("MAC", &[slot, &aad, &payload]), format!("CoseMac::verify_tag {}", what));
+                slot!(seen.clone(), 1, slot, format!("CoseMac::verify_tag {}", what));
                 let e0 = CoseEncrypt0 { protected: p.clone(), ciphertext: Some(vec![1]), ..Default::default() };
                 let _ = e0.decrypt(&aad, |_c, d| -> Result<Vec<u8>, ()> { seen = d.to_vec(); Ok(vec![]) });
                 check!("C05,C06", seen.clone(), structure("Encrypt0", &[slot, &aad]), format!("CoseEncrypt0::decrypt {}", what));
+                slot!(seen.clone(), 1, slot, format!("CoseEncrypt0::decrypt {}", what));
                 let e = CoseEncrypt { protected: p.clone(), ciphertext: Some(vec![1]), ..Default::default() };
                 let _ = e.decrypt(&aad, |_c, d| -> Result<Vec<u8>, ()> { seen = d.to_vec(); Ok(vec![]) });
                 check!("C05,C06", seen.clone(), structure("Encrypt", &[slot, &aad]), format!("CoseEncrypt::decrypt {}", what));
+                slot!(seen.clone(), 1, slot, format!("CoseEncrypt::decrypt {}", what));
                 let r = CoseRecipient { protected: p.clone(), ciphertext: Some(vec![1]), ..Default::default() };
                 let _ = r.decrypt(EncryptionContext::MacRecipient, &aad, |_c, d| -> Result<Vec<u8>, ()> { seen = d.to_vec(); Ok(vec![]) });
                 check!("C05,C06", seen.clone(), structure("Mac_Recipient", &[slot, &aad]), format!("CoseRecipient::decrypt {}", what));
+                slot!(seen.clone(), 1, slot, format!("CoseRecipient::decrypt {}", what));
             }
         }
     }
@@ -174,6 +190,75 @@ pub fn probe_structures() -> i32 {
         let _ = e0.decrypt(&aad, |_c, d| -> Result<Vec<u8>, ()> { verified = d.to_vec(); Ok(vec![]) });
         check!("C06", verified.clone(), c5.clone(), format!("Encrypt0 create/decrypt aad_len={}", la));
         check!("C05,C06", c5.clone(), structure("Encrypt0", &[&slot, &aad]), format!("Encrypt0 create aad_len={}", la));
+        // every remaining creating helper, fallible and infallible: what the caller's function is handed
+        let mut got: Vec<u8> = vec![];
+        let _ = CoseEncrypt0Builder::new().protected(hdr.clone()).try_create_ciphertext(&payload, &aad, |_pt, d| -> Result<Vec<u8>, ()> { got = d.to_vec(); Ok(vec![4]) });
+        check!("C05,C06", got.clone(), structure("Encrypt0", &[&slot, &aad]), format!("Encrypt0 try_create aad_len={}", la));
+        let _ = CoseEncryptBuilder::new().protected(hdr.clone()).create_ciphertext(&payload, &aad, |_pt, d| { got = d.to_vec(); vec![4] });
+        check!("C05,C06", got.clone(), structure("Encrypt", &[&slot, &aad]), format!("Encrypt create aad_len={}", la));
+        let _ = CoseEncryptBuilder::new().protected(hdr.clone()).try_create_ciphertext(&payload, &aad, |_pt, d| -> Result<Vec<u8>, ()> { got = d.to_vec(); Ok(vec![4]) });
+        check!("C05,C06", got.clone(), structure("Encrypt", &[&slot, &aad]), format!("Encrypt try_create aad_len={}", la));
+        for (c, name) in [(EncryptionContext::EncRecipient, "Enc_Recipient"), (EncryptionContext::MacRecipient, "Mac_Recipient"), (EncryptionContext::RecRecipient, "Rec_Recipient")] {
+            let _ = CoseRecipientBuilder::new().protected(hdr.clone()).create_ciphertext(c, &payload, &aad, |_pt, d| { got = d.to_vec(); vec![4] });
+            check!("C05,C06", got.clone(), structure(name, &[&slot, &aad]), format!("recipient create {} aad_len={}", name, la));
+            let _ = CoseRecipientBuilder::new().protected(hdr.clone()).try_create_ciphertext(c, &payload, &aad, |_pt, d| -> Result<Vec<u8>, ()> { got = d.to_vec(); Ok(vec![4]) });
+            check!("C05,C06", got.clone(), structure(name, &[&slot, &aad]), format!("recipient try_create {} aad_len={}", name, la));
+        }
+        let _ = CoseMacBuilder::new().protected(hdr.clone()).payload(payload.clone()).create_tag(&aad, |d| { got = d.to_vec(); vec![3] });
+        check!("C04,C06", got.clone(), structure("MAC", &[&slot, &aad, &payload]), format!("Mac create aad_len={}", la));
+        let _ = CoseMacBuilder::new().protected(hdr.clone()).payload(payload.clone()).try_create_tag(&aad, |d| -> Result<Vec<u8>, ()> { got = d.to_vec(); Ok(vec![3]) });
+        check!("C04,C06", got.clone(), structure("MAC", &[&slot, &aad, &payload]), format!("Mac try_create aad_len={}", la));
+        let _ = CoseMac0Builder::new().protected(hdr.clone()).payload(payload.clone()).create_tag(&aad, |d| { got = d.to_vec(); vec![3] });
+        check!("C04,C06", got.clone(), structure("MAC0", &[&slot, &aad, &payload]), format!("Mac0 create aad_len={}", la));
+        let _ = CoseSign1Builder::new().protected(hdr.clone()).payload(payload.clone()).try_create_signature(&aad, |d| -> Result<Vec<u8>, ()> { got = d.to_vec(); Ok(vec![3]) });
+        check!("C03,C06", got.clone(), structure("Signature1", &[&slot, &aad, &payload]), format!("Sign1 try_create aad_len={}", la));
+        let _ = CoseSign1Builder::new().protected(hdr.clone()).create_detached_signature(&payload, &aad, |d| { got = d.to_vec(); vec![3] });
+        check!("C03,C06", got.clone(), structure("Signature1", &[&slot, &aad, &payload]), format!("Sign1 create_detached aad_len={}", la));
+        let _ = CoseSign1Builder::new().protected(hdr.clone()).try_create_detached_signature(&payload, &aad, |d| -> Result<Vec<u8>, ()> { got = d.to_vec(); Ok(vec![3]) });
+        check!("C03,C06", got.clone(), structure("Signature1", &[&slot, &aad, &payload]), format!("Sign1 try_create_detached aad_len={}", la));
+    }
+    // documented refusals: the operation panics instead of handing the caller's function something else
+    {
+        use std::panic::{catch_unwind, AssertUnwindSafe};
+        let hook = std::panic::take_hook();
+        std::panic::set_hook(Box::new(|_| {}));
+        let mut refused: Vec<(&str, &str, bool)> = vec![];
+        let r = CoseRecipient { ciphertext: Some(vec![1]), ..Default::default() };
+        for (c, name) in [(EncryptionContext::CoseEncrypt, "recipient decrypt with context Encrypt"), (EncryptionContext::CoseEncrypt0, "recipient decrypt with context Encrypt0")] {
+            let p = catch_unwind(AssertUnwindSafe(|| { let _ = r.decrypt(c, b"", |_c, _d| -> Result<Vec<u8>, ()> { Ok(vec![]) }); })).is_err();
+            refused.push(("C05", name, p));
+        }
+        for (c, name) in [(EncryptionContext::CoseEncrypt, "recipient create_ciphertext with context Encrypt"), (EncryptionContext::CoseEncrypt0, "recipient create_ciphertext with context Encrypt0")] {
+            let p = catch_unwind(AssertUnwindSafe(|| { let _ = CoseRecipientBuilder::new().create_ciphertext(c, b"x", b"", |_p, _d| vec![1]); })).is_err();
+            refused.push(("C05", name, p));
+            let p = catch_unwind(AssertUnwindSafe(|| { let _ = CoseRecipientBuilder::new().try_create_ciphertext(c, b"x", b"", |_p, _d| -> Result<Vec<u8>, ()> { Ok(vec![1]) }); })).is_err();
+            refused.push(("C05", name, p));
+        }
+        let p = catch_unwind(AssertUnwindSafe(|| { let _ = CoseEncrypt0::default().decrypt(b"", |_c, _d| -> Result<Vec<u8>, ()> { Ok(vec![]) }); })).is_err();
+        refused.push(("C05", "Encrypt0 decrypt without ciphertext", p));
+        let p = catch_unwind(AssertUnwindSafe(|| { let _ = CoseEncrypt::default().decrypt(b"", |_c, _d| -> Result<Vec<u8>, ()> { Ok(vec![]) }); })).is_err();
+        refused.push(("C05", "Encrypt decrypt without ciphertext", p));
+        let p = catch_unwind(AssertUnwindSafe(|| { let _ = CoseMac0::default().verify_tag(b"", |_t, _d| -> Result<(), ()> { Ok(()) }); })).is_err();
+        refused.push(("C04", "Mac0 verify_tag without payload", p));
+        let p = catch_unwind(AssertUnwindSafe(|| { let _ = CoseMac::default().verify_tag(b"", |_t, _d| -> Result<(), ()> { Ok(()) }); })).is_err();
+        refused.push(("C04", "Mac verify_tag without payload", p));
+        let p = catch_unwind(AssertUnwindSafe(|| { let _ = CoseMac0Builder::new().create_tag(b"", |_d| vec![1]); })).is_err();
+        refused.push(("C04", "Mac0 create_tag without payload", p));
+        let p = catch_unwind(AssertUnwindSafe(|| { let _ = CoseMac0Builder::new().try_create_tag(b"", |_d| -> Result<Vec<u8>, ()> { Ok(vec![1]) }); })).is_err();
+        refused.push(("C04", "Mac0 try_create_tag without payload", p));
+        let p = catch_unwind(AssertUnwindSafe(|| { let _ = CoseMacBuilder::new().create_tag(b"", |_d| vec![1]); })).is_err();
+        refused.push(("C04", "Mac create_tag without payload", p));
+        let p = catch_unwind(AssertUnwindSafe(|| { let _ = CoseMacBuilder::new().try_create_tag(b"", |_d| -> Result<Vec<u8>, ()> { Ok(vec![1]) }); })).is_err();
+        refused.push(("C04", "Mac try_create_tag without payload", p));
+        let p = catch_unwind(AssertUnwindSafe(|| { let s = CoseSign1 { payload: Some(vec![1]), ..Default::default() }; let _ = s.tbs_detached_data(b"x", b""); })).is_err();
+        refused.push(("C03", "Sign1 tbs_detached_data with an embedded payload", p));
+        let p = catch_unwind(AssertUnwindSafe(|| { let s = CoseSign::default(); let _ = s.verify_signature(0, b"", |_s, _d| -> Result<(), ()> { Ok(()) }); })).is_err();
+        refused.push(("C03", "Sign verify_signature with an out-of-range index", p));
+        std::panic::set_hook(hook);
+        for (tag, name, panicked) in refused {
+            n += 1;
+            if !panicked && relevant(tag) { println!("FAILING-INPUT {}: not refused (no panic)", name); return 1; }
+        }
     }
     println!("probe structures: {} comparisons, no disagreement", n);
     0
@@ -310,6 +395,42 @@ pub fn probe_headers() -> i32 {
             if let Some(f) = fields { let tags = if f == "original_data" { "C02,C09" } else { "C08,C09" }; if report(tags, format!("header map {} (context {}): field {} does not equal the wire value", hex(&b), ctx, f)) { return 1; } }
         }
     }
+    // C12, encode side: an in-memory header whose extras repeat a label, or name a populated typed field, must not encode
+    {
+        let sig = CoseSignature { signature: vec![1], ..Default::default() };
+        let mut cases: Vec<(String, Header)> = vec![];
+        let base = |f: &dyn Fn(&mut Header)| { let mut h = Header::default(); f(&mut h); h };
+        let typed: Vec<(i64, Header)> = vec![
+            (1, base(&|h| h.alg = Some(Algorithm::Assigned(iana::Algorithm::ES256)))),
+            (2, base(&|h| h.crit = vec![RegisteredLabel::Assigned(iana::HeaderParameter::Alg)])),
+            (3, base(&|h| h.content_type = Some(ContentType::Text("a/b".into())))),
+            (4, base(&|h| h.key_id = vec![1])), (5, base(&|h| h.iv = vec![1])), (6, base(&|h| h.partial_iv = vec![1])),
+            (7, base(&|h| h.counter_signatures = vec![sig.clone()])), (7, base(&|h| h.counter_signatures = vec![sig.clone(), sig.clone()])),
+            (7, base(&|h| h.counter_signatures = vec![sig.clone(), sig.clone(), sig.clone()])),
+        ];
+        for (l, h) in &typed { let mut h2 = h.clone(); h2.rest.push((Label::Int(*l), Value::Null)); cases.push((format!("typed field {} populated and extra label {}", l, l), h2)); }
+        for l in [Label::Int(0), Label::Int(8), Label::Int(-1), Label::Text("x".into())] {
+            let mut h2 = Header::default(); h2.rest.push((l.clone(), Value::from(1))); h2.rest.push((Label::Int(99), Value::Null)); h2.rest.push((l.clone(), Value::from(2)));
+            cases.push((format!("extra label {:?} twice", l), h2));
+        }
+        for (what, h) in cases {
+            n += 1;
+            match h.clone().to_cbor_value() {
+                Err(CoseError::DuplicateMapKey) => {}
+                other => { if report("C12", format!("in-memory header with {}: to_cbor_value gives {:?}, want Err(DuplicateMapKey)", what, other.map(|v| { let mut b = vec![]; ciborium::ser::into_writer(&v, &mut b).unwrap(); hex(&b) }))) { return 1; } }
+            }
+            let s1 = CoseSign1 { unprotected: h.clone(), ..Default::default() };
+            if s1.to_vec().is_ok() { if report("C12", format!("COSE_Sign1 whose unprotected header has {}: encodes", what)) { return 1; } }
+            let p1 = CoseSign1 { protected: ProtectedHeader { original_data: None, header: h.clone() }, ..Default::default() };
+            if p1.to_vec().is_ok() { if report("C12", format!("COSE_Sign1 whose in-memory protected header has {}: encodes", what)) { return 1; } }
+        }
+        // keys
+        let mut k = CoseKeyBuilder::new_symmetric_key(vec![1]).key_id(vec![2]).algorithm(iana::Algorithm::A128GCM).add_key_op(iana::KeyOperation::Encrypt).base_iv(vec![3]).build();
+        for l in 1..=5i64 { let mut k2 = k.clone(); k2.params.push((Label::Int(l), Value::Null)); n += 1;
+            if !matches!(k2.to_cbor_value(), Err(CoseError::DuplicateMapKey)) { if report("C12", format!("COSE_Key with typed field {} populated and extra label {}: encodes", l, l)) { return 1; } } }
+        k.params.push((Label::Int(-1), Value::from(9))); n += 1;
+        if !matches!(k.to_cbor_value(), Err(CoseError::DuplicateMapKey)) { if report("C12", format!("COSE_Key with extra label -1 twice: encodes")) { return 1; } }
+    }
     println!("probe headers: {} decodes compared with the reference predicate, no disagreement", n);
     0
 }
@@ -364,6 +485,39 @@ pub fn probe_framing() -> i32 {
     tagged!(CoseSign, 98, vec![0x84, 0x40, 0xa0, 0xf6, 0x80], "CoseSign");
     tagged!(CoseMac, 97, vec![0x85, 0x40, 0xa0, 0xf6, 0x41, 0x01, 0x80], "CoseMac");
     tagged!(CoseEncrypt, 96, vec![0x84, 0x40, 0xa0, 0xf6, 0x80], "CoseEncrypt");
+    // byte-level encode == serialise(to_cbor_value), byte-level decode == from_cbor_value(parse), over boundary labels and small values
+    {
+        let ser = |v: &Value| { let mut b = vec![]; ciborium::ser::into_writer(v, &mut b).unwrap(); b };
+        let mut ints: Vec<i64> = vec![i64::MIN, i64::MAX];
+        for base in [0i64, 23, 24, 255, 256, 65535, 65536, 1 << 32] { for d in -1..=1 { ints.push(base + d); ints.push(-(base + d)); ints.push(-1 - (base + d)); } }
+        for i in ints {
+            n += 1;
+            let l = Label::Int(i);
+            let want = ser(&l.clone().to_cbor_value().unwrap());
+            if l.clone().to_vec().ok() != Some(want.clone()) { if report("C13", format!("Label::Int({}).to_vec() = {:?}, serialising to_cbor_value gives {}", i, l.clone().to_vec().map(|b| hex(&b)), hex(&want))) { return 1; } }
+            if want != int(i as i128) { if report("C13,C15", format!("Label::Int({}) serialises to {}, deterministic CBOR is {}", i, hex(&want), hex(&int(i as i128)))) { return 1; } }
+            if Label::from_slice(&want).ok() != Some(l.clone()) { if report("C13", format!("Label::from_slice({}) does not give Int({})", hex(&want), i)) { return 1; } }
+        }
+        for t in ["", "a", "é", &"x".repeat(24), &"y".repeat(256)] {
+            n += 1;
+            let l = Label::Text(t.to_string());
+            if l.clone().to_vec().ok() != Some(tstr(t)) { if report("C13", format!("Label::Text({:?}).to_vec() is not the text string encoding", t)) { return 1; } }
+        }
+        macro_rules! agree { ($t:ty, $body:expr, $name:expr) => {{
+            n += 1;
+            let body: Vec<u8> = $body;
+            let v: Value = ciborium::de::from_reader(&body[..]).unwrap();
+            let a = <$t>::from_slice(&body).ok(); let b2 = <$t>::from_cbor_value(v).ok();
+            if a != b2 { if report("C13", format!("{}: from_slice and from_cbor_value(parse) disagree on {}", $name, hex(&body))) { return 1; } }
+            if let Some(x) = a { let e1 = x.clone().to_vec().ok(); let e2 = x.to_cbor_value().ok().map(|v| ser(&v));
+                if e1 != e2 { if report("C13", format!("{}: to_vec and serialise(to_cbor_value) disagree for the value decoded from {}", $name, hex(&body))) { return 1; } } }
+        }}; }
+        agree!(CoseSign1, sign1.clone(), "CoseSign1"); agree!(CoseEncrypt0, enc0.clone(), "CoseEncrypt0"); agree!(Header, vec![0xa2, 0x01, 0x26, 0x20, 0x01], "Header");
+        agree!(ProtectedHeader, vec![0xa1, 0x01, 0x26], "ProtectedHeader"); agree!(CoseKey, vec![0xa2, 0x01, 0x04, 0x20, 0x41, 0x01], "CoseKey");
+        agree!(CoseKeySet, vec![0x81, 0xa1, 0x01, 0x04], "CoseKeySet"); agree!(cwt::ClaimsSet, vec![0xa2, 0x01, 0x61, b'i', 0x04, 0x01], "ClaimsSet");
+        agree!(CoseSign, vec![0x84, 0x40, 0xa0, 0xf6, 0x81, 0x83, 0x40, 0xa0, 0x41, 0x01], "CoseSign"); agree!(CoseMac0, vec![0x84, 0x40, 0xa0, 0xf6, 0x41, 0x01], "CoseMac0");
+        agree!(CoseRecipient, vec![0x83, 0x40, 0xa0, 0xf6], "CoseRecipient"); agree!(CoseKdfContext, vec![0x84, 0x01, 0x83, 0xf6, 0xf6, 0xf6, 0x83, 0xf6, 0xf6, 0xf6, 0x82, 0x18, 0x80, 0x40], "CoseKdfContext");
+    }
     println!("probe framing: {} cases, no disagreement", n);
     0
 }
@@ -617,7 +771,7 @@ pub fn probe_claims() -> i32 {
     let mut n = 0u64;
     let mut maps: Vec<Vec<(Value, Value)>> = vec![vec![]];
     for k in &keys { for v in &vals { maps.push(vec![(k.clone(), v.clone())]); } }
-    for k1 in &keys { for k2 in &keys { maps.push(vec![(k1.clone(), Value::Text("a".into())), (k2.clone(), Value::Text("b".into()))]); maps.push(vec![(k1.clone(), Value::from(5)), (Value::from(100000), Value::Null), (k2.clone(), Value::from(6))]); } }
+    for k1 in &keys { for k2 in &keys { maps.push(vec![(k1.clone(), Value::Text("a".into())), (k2.clone(), Value::Text("b".into()))]); maps.push(vec![(k1.clone(), Value::from(5)), (Value::from(-70000), Value::Null), (k2.clone(), Value::from(6))]); } }
     for m in &maps {
         n += 1;
         let v = Value::Map(m.clone());
@@ -739,6 +893,14 @@ pub fn probe_roundtrip() -> i32 {
         // every typed field at once plus extras with label 0, 8, negative, large and text labels
         vec![0xa9, 0x01, 0x26, 0x02, 0x81, 0x04, 0x03, 0x18, 0x3c, 0x04, 0x41, 0x01, 0x05, 0x41, 0x02, 0x00, 0x01, 0x08, 0xf6, 0x38, 0x63, 0x20, 0x61, b'z', 0x1a, 0x00, 0x01, 0x00, 0x00],
         vec![0xa2, 0x06, 0x42, 0x01, 0x02, 0x03, 0x63, b'a', b'/', b'b'], vec![0xa1, 0x00, 0xa1, 0x00, 0x80], vec![0xa2, 0x19, 0x01, 0x00, 0x01, 0x18, 0x21, 0x81, 0x41, 0x00], vec![0xa1, 0x07, 0x82, 0x83, 0x40, 0xa0, 0x40, 0x83, 0x41, 0xa0, 0xa1, 0x05, 0x41, 0x01, 0x41, 0x02]];
+    // C02: a decoded value written again carries the protected byte string exactly as received
+    macro_rules! carries { ($t:ty, $bytes:expr, $prot:expr, $name:expr) => {{
+        let b: Vec<u8> = $bytes;
+        if let Ok(v) = <$t>::from_slice(&b) { if let Ok(re) = v.to_vec() {
+            let want = bstr($prot);
+            if !re.windows(want.len()).any(|w| w == &want[..]) { if report("C02,C07", format!("{} {}: re-encoding {} does not carry the received protected bytes {}", $name, hex(&b), hex(&re), hex($prot))) { return 1; } }
+        } }
+    }}; }
     macro_rules! fixed_point { ($t:ty, $bytes:expr, $name:expr) => {'fp: {
         n += 1;
         let b: Vec<u8> = $bytes;
@@ -773,13 +935,20 @@ pub fn probe_roundtrip() -> i32 {
         fixed_point!(CoseEncrypt, en, "COSE_Encrypt");
         let mut mc = vec![0x85]; mc.extend(bstr(p)); mc.extend(u); mc.extend([0x41, 0x01, 0x41, 0x02, 0x80]);
         fixed_point!(CoseMac, mc, "COSE_Mac");
+        { let mut m0 = vec![0x84]; m0.extend(bstr(p)); m0.extend(u); m0.extend([0xf6, 0x41, 0x02]); carries!(CoseMac0, m0, p, "COSE_Mac0"); }
+        { let mut e0 = vec![0x83]; e0.extend(bstr(p)); e0.extend(u); e0.extend([0x41, 0x02]); carries!(CoseEncrypt0, e0, p, "COSE_Encrypt0"); }
+        { let mut sg2 = vec![0x84, 0x40, 0xa0, 0xf6, 0x81, 0x83]; sg2.extend(bstr(p)); sg2.extend([0xa0, 0x41, 0x09]); carries!(CoseSign, sg2, p, "COSE_Sign signer"); }
+        { let mut rc2 = vec![0x84, 0x40, 0xa0, 0x40, 0x81, 0x83]; rc2.extend(bstr(p)); rc2.extend([0xa0, 0xf6]); carries!(CoseRecipient, rc2, p, "nested COSE_recipient"); }
+        { let mut kd = vec![0x84, 0x01, 0x83, 0xf6, 0xf6, 0xf6, 0x83, 0xf6, 0xf6, 0xf6, 0x82, 0x18, 0x80]; kd.extend(bstr(p)); carries!(CoseKdfContext, kd, p, "COSE_KDF_Context SuppPubInfo"); }
+        { let mut sp = vec![0x82, 0x18, 0x80]; sp.extend(bstr(p)); carries!(SuppPubInfo, sp, p, "SuppPubInfo"); }
         fixed_point!(Header, p.clone(), "header map");
         fixed_point!(Header, u.clone(), "header map");
     } }
     // empty recipients list in a 4-element COSE_recipient encodes as 3 elements and stays there
     fixed_point!(CoseRecipient, vec![0x84, 0x40, 0xa0, 0xf6, 0x80], "COSE_recipient with empty list");
     for k in [vec![0xa1u8, 0x01, 0x04], vec![0xa3, 0x20, 0x01, 0x01, 0x02, 0x21, 0x41, 0x01], vec![0xa4, 0x01, 0x61, b'k', 0x04, 0x82, 0x02, 0x01, 0x03, 0x26, 0x61, b'z', 0xf5]] { fixed_point!(CoseKey, k, "COSE_Key"); }
-    for c in [vec![0xa0u8], vec![0xa2, 0x04, 0xfb, 0x3f, 0xf8, 0, 0, 0, 0, 0, 0, 0x01, 0x61, b'i'], vec![0xa3, 0x18, 0x26, 0x01, 0x06, 0xf9, 0x7c, 0x00, 0x07, 0x41, 0x01]] { fixed_point!(cwt::ClaimsSet, c, "CWT claims set"); }
+    for c in [vec![0xa0u8], vec![0xa2, 0x04, 0xfb, 0x3f, 0xf8, 0, 0, 0, 0, 0, 0, 0x01, 0x61, b'i'],
+              vec![0xa1, 0x04, 0xfb, 0x40, 0x00, 0, 0, 0, 0, 0, 0], vec![0xa1, 0x05, 0xf9, 0x40, 0x00], vec![0xa1, 0x06, 0xfa, 0x4e, 0xca, 0xa9, 0x0c], vec![0xa1, 0x06, 0xfb, 0xc1, 0xd9, 0x55, 0x21, 0x90, 0, 0, 0], vec![0xa3, 0x18, 0x26, 0x01, 0x06, 0xf9, 0x7c, 0x00, 0x07, 0x41, 0x01]] { fixed_point!(cwt::ClaimsSet, c, "CWT claims set"); }
     for c in [vec![0x84u8, 0x01, 0x83, 0xf6, 0xf6, 0xf6, 0x83, 0x41, 0x01, 0x20, 0xf6, 0x82, 0x18, 0x80, 0x43, 0xa1, 0x01, 0x26],
               vec![0x86, 0x01, 0x83, 0xf6, 0x41, 0x02, 0xf6, 0x83, 0xf6, 0xf6, 0xf6, 0x83, 0x18, 0x80, 0x40, 0x41, 0x05, 0x41, 0x06, 0x41, 0x07]] { fixed_point!(CoseKdfContext, c, "COSE_KDF_Context"); }
     // encode side (C11): in-memory values encode to the documented shape and decode back
@@ -799,6 +968,19 @@ pub fn probe_roundtrip() -> i32 {
     let mut want = vec![0x84]; want.extend(bstr(&enc)); want.extend([0xa0, 0x40, 0x40]);
     n += 1;
     if b != want { if report("C11", format!("COSE_Sign1 built from that header encodes to {}, documented shape {}", hex(&b), hex(&want))) { return 1; } }
+    // time claims keep their kind (integer vs float) across encode/decode
+    for t in [cwt::Timestamp::WholeSeconds(2), cwt::Timestamp::WholeSeconds(-1), cwt::Timestamp::FractionalSeconds(2.0), cwt::Timestamp::FractionalSeconds(1.5),
+              cwt::Timestamp::FractionalSeconds(1700000000.0), cwt::Timestamp::FractionalSeconds(-3.0), cwt::Timestamp::FractionalSeconds(0.0)] {
+        n += 1;
+        let c = cwt::ClaimsSetBuilder::new().expiration_time(t.clone()).not_before(t.clone()).issued_at(t.clone()).build();
+        match c.clone().to_vec().ok().and_then(|b| cwt::ClaimsSet::from_slice(&b).ok()) {
+            Some(c2) if c2 == c => {}
+            other => { if report("C11,C18", format!("claims set with time claims {:?} does not decode back to the value that was encoded (got {:?})", t, other.map(|x| x.expiration_time))) { return 1; } }
+        }
+        let v = c.to_cbor_value().unwrap();
+        if let Value::Map(m) = &v { for (_, val) in m { let is_float = matches!(val, Value::Float(_)); let want_float = matches!(t, cwt::Timestamp::FractionalSeconds(_));
+            if is_float != want_float { if report("C11,C18", format!("time claim {:?} is encoded as {:?}", t, val)) { return 1; } } } }
+    }
     let empty = CoseSign1Builder::new().build().to_vec().unwrap();
     if empty != vec![0x84, 0x40, 0xa0, 0xf6, 0x40] { if report("C11", format!("default COSE_Sign1 encodes to {}", hex(&empty))) { return 1; } }
     println!("probe roundtrip: {} cases, no disagreement", n);
